@@ -9,6 +9,7 @@ import PrefVerif.Driver.C05
 import PrefVerif.Driver.C19
 import PrefVerif.Driver.ILP
 import PrefVerif.Driver.ELO
+import PrefVerif.Driver.KAlt
 open Lean PrefVerif.Driver
 
 def handlers : List (String × Handler) := [
@@ -34,7 +35,10 @@ def handlers : List (String × Handler) := [
   ("c05.matrix", C05.matrix),
   ("c19.check", C19.check),
   ("ilp.model", ILPD.model),
-  ("elo.sp", ELO.elo)
+  ("elo.sp", ELO.elo),
+  ("kalt.deletion", KAltD.deletion),
+  ("kalt.partition", KAltD.partition),
+  ("kalt.sets", KAltD.sets)
 ]
 
 def dispatch (j : Json) : Json :=
